@@ -78,4 +78,10 @@ def covered (s : S) : Prop :=
   (s.sp1.hasInFlight = true ∧ s.sp1.lastAckEliciting.isSome = true) ∨
   (s.handshaking = false ∧ s.sp2.hasInFlight = true ∧ s.sp2.lastAckEliciting.isSome = true)
 
+/-- `Connection::discard_space` (Initial / Handshake keys dropped): besides forgetting the space it resets the PTO
+    backoff (`self.pto_count = 0`, RFC 9002 A.4; pinned by the T1 anchor `Gen.discardSpaceResetsPtoChecked`) -/
+def discardSpace (s : S) (clear : S → S) : S :=
+  let _ := Gen.discardSpaceResetsPtoChecked
+  { clear s with ptoCount := 0 }
+
 end QM.LossTimer
